@@ -12,7 +12,7 @@ one() {
   if ! git -C $WT apply $d 2>/dev/null; then echo "CONTROL $n: patch does not apply (skipped)"; git -C /repo worktree remove --force $WT; return; fi
   bad=""
   for c in $checks; do
-    out=$(cd /verif && VERIF_REPO=$WT VERIF_EVIDENCE_DIR=/tmp/st/ev.ctl.$n.$$ VERIF_FACTS_KEEP=24 ./check $c --tier ${TIER:-quick} 2>&1); r=$?
+    out=$(cd ${VERIF_HOME:-/verif} && VERIF_REPO=$WT VERIF_EVIDENCE_DIR=/tmp/st/ev.ctl.$n.$$ VERIF_FACTS_KEEP=24 ./check $c --tier ${TIER:-quick} 2>&1); r=$?
     if [ $r -ne 0 ]; then bad="$bad $c"; echo "CONTROL $n: check $c NOT silent (exit $r)"; echo "$out" | grep -E "VIOLATION|UNDECIDED|key=|^  [a-z]" | head -4; fi
   done
   [ -z "$bad" ] && echo "CONTROL $n: silent (${checks// /,})" | cut -c1-60
